@@ -11,7 +11,7 @@ from ..facades import Facade, make_disk
 NATIVE_LIKE = ("native", "realos")
 from ..models import (LoadError, ref_detect, ref_encoding, ref_load, universal_newlines,
                       DEFAULT_ENCODINGS)
-from ..simdisk import SimDisk, norm, LISTDIR
+from ..simdisk import SimDisk, SimKill, norm, LISTDIR
 
 PROPS = ("C19", "C20")
 
@@ -156,7 +156,7 @@ def generate(prop, rng, run, tier):
     for n in rng.sample(["loose.sm", "loose.ssc", "readme.txt", "LOOSE.SM"], rng.randint(0, 2)):
         files[pack + "/" + n] = b"#TITLE:loose;\n".hex()
     for n in rng.sample(["a.png", "b.PNG", "pack.jpg", "x.jpeg", "y.gif", "z.bmp", "c.jpg",
-                         "notimage.txt", "png", "q.png.bak"], rng.randint(0, 3)):
+                         "notimage.txt", "png", "q.png.bak"], rng.choice([0, 1, 2, 3, 3, 4, 5, 6])):
         files[pack + "/" + n] = b"img".hex()
     for ext in rng.sample(IMAGE_EXT + [".PNG", ".txt"], rng.randint(0, 2)):
         files[parent + "/" + pack_name + ext] = b"beside".hex()
@@ -172,9 +172,19 @@ def generate(prop, rng, run, tier):
            "encoding": gen.wchoice(rng, [(None, 6), ("utf-8", 1), ("cp932", 1), ("cp1252", 1)]),
            "spelling": gen.wchoice(rng, [(None, 5), ("trailing", 1), ("dslash", 1), ("dot", 1),
                                          ("rel", 1)]),
-           "assets_self_load": rng.random() < 0.3}
+           "assets_self_load": rng.random() < 0.3,
+           "open_faults": rng.random() < 0.3}
     sc = {"workload": "discover", "property": prop, "config": cfg,
           "world": {"dirs": dirs, "files": files}, "pack": pack}
+    if prop == "C19" and song_names and rng.random() < 0.15:
+        # the tree changes while it is being scanned: right after the n-th listing another
+        # simfile appears in (or disappears from) a song directory
+        d = pack + "/" + rng.choice(song_names)
+        ch = {"n": rng.randint(1, 7), "add": {}, "remove": []}
+        for _ in range(rng.randint(1, 2)):
+            n = rng.choice(["late.ssc", "late.sm", "LATE.SSC", "zz.sm"])
+            ch["add"][d + "/" + n] = ("#TITLE:late %s;\n" % n).encode().hex()
+        sc["change"] = ch
     if rng.random() < 0.4:
         # history: the same paths scanned again (fresh objects) after the tree changed
         files2 = dict(files)
@@ -464,6 +474,28 @@ def check_c19(sc, res):
                 return
             if want_ssc and want_sm:
                 res.stats["probe:ssc-preferred-over-sm"] += 1
+            # a storage error at the j-th call of open(): it may fail, it must never answer
+            # with another simfile (every fault point of this open is enumerated)
+            if cfg.get("open_faults") and isinstance(disk, SimDisk):
+                seq0 = disk.seq
+                _outcome_of_open(lambda: sd.open(**kw_load))
+                ncalls = min(disk.seq - seq0, 14)
+                for j in range(1, ncalls + 1):
+                    for errno_ in ("EIO", "EACCES"):
+                        k = disk.seq + j
+                        disk.faults[k] = {"kind": "err", "k": k, "errno": errno_}
+                        nfired = len(disk.fired)
+                        oc = _outcome_of_open(lambda: sd.open(**kw_load))
+                        disk.faults.pop(k, None)
+                        res.evaluations += 1
+                        if len(disk.fired) == nfired:
+                            continue
+                        res.stats["fault:err-during-open"] += 1
+                        if oc[0] == "ok":
+                            if not judge_loaded("open-under-fault", oc, d, chosen):
+                                for v in res.violations:
+                                    v.detail.setdefault("fault", {"j": j, "errno": errno_})
+                                return
             # opendir: same simfile and path (stable listing needed when duplicates are ignored)
             if not dup:
                 oc = _outcome_of_open(lambda: sfm.opendir(arg, **dict(fa.kw, **kw_load)))
@@ -830,8 +862,65 @@ def check_c20(sc, res):
     res.log("c20", disk.log_digest())
 
 
+def check_c19_changing(sc, res):
+    """The tree changes between two listings.  Nothing is asserted about *which*
+    simfiles are found; only that what opendir/openpack hand out is consistent: the
+    simfile of a pair is the load of the file at the pair's path."""
+    lib = ops.lib()
+    sfm = lib.simfile
+    cfg = sc["config"]
+    P = "C19"
+    facade = cfg["facade"] if cfg["facade"] in ("simfs", "native") else "simfs"
+    pack = norm(sc["pack"])
+    kw_load = {"strict": False}
+    for which in ("openpack", "opendir"):
+        disk = SimDisk(sc["world"], {"listing": cfg.get("listing", "sorted"),
+                                     "listing_seed": cfg.get("listing_seed", 0),
+                                     "change_after_listing": sc["change"]})
+        with Facade(facade, disk) as fa:
+            pairs = []
+            try:
+                if which == "openpack":
+                    for item in sfm.openpack(pack, **dict(fa.kw, **kw_load)):
+                        pairs.append(item)
+                else:
+                    d = posixpath.dirname(norm(sorted(sc["change"]["add"])[0]))
+                    from simfile.dir import SimfilePack
+                    SimfilePack(pack, **fa.kw)          # a scan of the pack first
+                    pairs.append(sfm.opendir(d, **dict(fa.kw, **kw_load)))
+            except (HarnessError, LibraryMisbehaved):
+                raise
+            except Exception:
+                res.stats["probe:changing-tree-raised"] += 1
+            res.evaluations += 1
+            for sf, path in pairs:
+                if not isinstance(path, str):
+                    raise LibraryMisbehaved("path-is-not-a-string", got=repr(path))
+                q = norm(fa.normpath(path))
+                if q not in disk.files:
+                    res.violate(P, "yielded-path-does-not-exist", via=which, path=path)
+                    return
+                exp = expected_load(bytes(disk.files[q]), posixpath.basename(q),
+                                    {"strict": False, "encoding": None}, facade)
+                if isinstance(exp, LoadError):
+                    continue
+                want_cls = lib.SSCSimfile if exp.kind == "ssc" else lib.SMSimfile
+                if type(sf) is not want_cls or ops.real_plain(sf, lib) != exp.plain():
+                    res.violate(P, "yielded-simfile-is-not-the-file-at-the-yielded-path", via=which,
+                                path=path, got=ops.real_plain(sf, lib), expected=exp.plain(),
+                                change=sc["change"])
+                    return
+            if any(f[0] == "tree-changed" for f in disk.fired):
+                res.stats["fault:tree-changed-during-scan"] += 1
+                res.note("changing", which, facade, sc["change"]["n"], len(pairs))
+
+
 def execute(sc):
     res = RunResult()
+    if sc["property"] == "C19" and sc.get("change"):
+        check_c19_changing(sc, res)
+        if res.violations:
+            return res
     check = {"C19": check_c19, "C20": check_c20}.get(sc["property"])
     if check is None:
         raise HarnessError("discover workload serves C19/C20")
